@@ -366,6 +366,17 @@ def pm_canon(el, base_ids):
     return text
 
 
+def pm_bag(el, base_ids):
+    """the elements below `el` as a sorted bag of (tag, attributes) with every id that is not in the base model blanked"""
+    import re
+    out = []
+    for x in el.iter():
+        if isinstance(x.tag, str):
+            out.append((x.tag, sorted((k, re.sub(r"[0-9a-f]{8}-[0-9a-f-]{27}", lambda m_: m_.group(0) if m_.group(0) in base_ids else "NEW", v))
+                                      for k, v in x.attrib.items())))
+    return sorted(out)
+
+
 def pm_case(rng, model, base, idx, level, kind, L, p, decl_at, wait_exists, stats):
     """One document: a sync list of length L whose entry p has to wait for a promise (declared where `decl_at` says);
     the other entries match an object that exists or describe a new one.  Everything lives in a fresh package, so many
@@ -489,6 +500,151 @@ def pm_case(rng, model, base, idx, level, kind, L, p, decl_at, wait_exists, stat
     return doc, expect, sandbox.uuid, t_path
 
 
+# ------------------------------------------------------------------ (a'') promises INSIDE find directives
+NF_COMBOS = [(level, where, depth, nested, decl_at, exists, L, p)
+             for level in ("props", "classes") for where in ("set", "find") for depth in (1, 2, 3) for nested in (False, True)
+             for decl_at in PM_DECLS for exists in (False, True) for L, p in ((1, 0), (3, 0), (3, 1), (3, 2))
+             if not (where == "find" and exists)]
+
+
+def nested_find_matrix(chk, model, base, tag, todo, stats):
+    """A sync entry whose `set` value or find key is a !find directive that CONTAINS a promise `depth` levels down
+    (`!find {name: T, parent: !find {name: P2, parent: !promise p1}}`): the promised package chain P1 > .. > Pd > T is
+    declared by a later instruction / later in the same instruction / earlier; the entry is new or exists, carries a nested
+    sync or not, and sits at every position of its list.  Oracle on the raw XML as in the waiting-entry matrix."""
+    import yaml
+    from lxml import etree
+    from capellambse import decl
+    rng = chk.rng
+    for idx, (level, where, depth, nested, decl_at, exists, L, p) in enumerate(todo):
+        root = model.by_uuid(base.roots["PK"])
+        sandbox = root.packages.create(name="nf%d" % idx)
+        pre = rng.choice(["", "", rng.choice(NASTY[:40]) + " "])
+        pnames = [pre + "P%d" % k for k in range(1, depth + 1)]
+        tname, kname = pre + "T", pre + "K"
+        prom = decl.Promise("nfP%d" % idx)
+        # pre-existing part of the promised chain: nothing, some packages, or everything including T
+        n_pre = rng.choice([0, 0, rng.randint(0, depth), depth + 1])
+        holder = sandbox
+        for k in range(min(n_pre, depth)):
+            holder = holder.packages.create(name=pnames[k])
+        if n_pre == depth + 1:
+            holder.classes.create(name=tname)
+        stats["chain_preexisting_%s" % ("none" if n_pre == 0 else "all" if n_pre > depth else "part")] += 1
+        directive = prom
+        for k in range(depth):
+            fb = {"name": pnames[k + 1] if k + 1 < depth else tname, "parent": directive}
+            if rng.random() < 0.95:         # an untyped !find scans every object of the model: keep those few
+                fb["_type"] = "DataPkg" if k + 1 < depth else "Class"
+            if rng.random() < 0.5:
+                fb = dict(reversed(list(fb.items())))
+            directive = decl.FindBy(fb)
+        container, prefix = sandbox, []
+        attr, refattr, sublist = "classes", "super", "owned_properties"
+        if level == "props":
+            attr, refattr, sublist = "owned_properties", "type", "constraints"
+            prefix = [kname]
+            if exists or rng.random() < 0.5:
+                container = sandbox.classes.create(name=kname)
+            else:
+                container = None
+        expect, entries = [], []
+        for i in range(L):
+            nm = "%se%d" % (pre, i)
+            e = {"find": {"name": nm}}
+            expect.append((prefix + [nm], False))
+            if i == p:
+                if exists:
+                    getattr(container, attr).create(name=nm)
+                if where == "set":
+                    e["set"] = {refattr: directive}
+                else:
+                    e["find"][refattr] = directive
+                expect.append((prefix + [nm], True))
+                if nested:
+                    e["sync"] = {sublist: [{"find": {"name": "n0"}}, {"find": {"name": "n1"}, "set": {"description": "d"}}]}
+                    expect += [(prefix + [nm, "n0"], False), (prefix + [nm, "n1"], False)]
+            else:
+                mode = rng.choice(["match", "create", "create+set"])
+                if mode == "match" and container is not None:
+                    getattr(container, attr).create(name=nm)
+                if mode == "create+set":
+                    e["set"] = {"summary": "s%d" % i}
+            entries.append(e)
+        chain = {"find": {"name": tname}}
+        for k in reversed(range(depth)):
+            chain = {"find": {"name": pnames[k]}, "sync": {("classes" if k == depth - 1 else "packages"): [chain]}}
+            expect.append((pnames[:k + 1], False))
+        chain["promise_id"] = prom.identifier
+        t_path = pnames + [tname]
+        expect.append((t_path, False))
+        parent = decl.UUIDReference(sandbox.uuid)
+        main_sync = {"classes": entries} if level == "classes" else {"classes": [{"find": {"name": kname}, "sync": {attr: entries}}]}
+        if level == "props":
+            expect.append(([kname], False))
+        if decl_at == "later-enclosing-list":
+            doc = [{"parent": parent, "sync": dict(main_sync, packages=[chain])}]
+        elif decl_at == "later-instruction":
+            doc = [{"parent": parent, "sync": main_sync}, {"parent": parent, "sync": {"packages": [chain]}}]
+        else:
+            doc = [{"parent": parent, "sync": {"packages": [chain]}}, {"parent": parent, "sync": main_sync}]
+        text = yaml.dump(doc, Dumper=decl.YDMDumper, sort_keys=False)
+        cfg = f"{level}:{where}:depth{depth}:{'nested-sync' if nested else 'flat'}:{decl_at}:{'existing' if exists else 'new'}:L{L}:p{p}"
+        stats["documents"] += 1
+        for k_ in (f"{level}/{where}", f"depth{depth}", "nested-sync" if nested else "flat", decl_at):
+            stats["by"][k_] = stats["by"].get(k_, 0) + 1
+        chk.note_case(("nested-find", tag, cfg, text), nontrivial=True)
+        replay = {"model": tag, "yaml": text, "list_under_test": level, "directive_in": where, "promise_depth_inside_find": depth,
+                  "entry_has_nested_sync": nested, "promise_declared": decl_at, "waiting_entry_object": "exists" if exists else "new",
+                  "preexisting_links_of_promised_chain": n_pre,
+                  "note": "apply twice to the model after creating a package below la.data_package and the objects the entries match"}
+        sb = pm_find_el(model, sandbox.uuid)
+        snaps, bad = [], None
+        for run_no in (1, 2):
+            try:
+                decl.apply(model, io.StringIO(text))
+            except BaseException as e:  # noqa: BLE001
+                if isinstance(e, (KeyboardInterrupt, SystemExit)):
+                    raise
+                bad = ("first-run-fails" if run_no == 1 else "second-run-fails", f"application {run_no} raises {e!r:.160}")
+                break
+            t_els = pm_count(sb, t_path)
+            problems = []
+            for path, refers in sorted(set((tuple(a), b) for a, b in expect)):
+                els = pm_count(sb, path)
+                if len(els) != 1:
+                    problems.append(f"{'/'.join(path)}: {len(els)} object(s), expected 1")
+                elif refers and len(t_els) == 1:
+                    tid = t_els[0].get("id")
+                    if not any(tid in v for x in els[0].iter() if isinstance(x.tag, str) for v in x.attrib.values()):
+                        problems.append(f"{'/'.join(path)}: does not refer to the object the directive names ({tid})")
+            if problems:
+                bad = (f"run{run_no}-objects", f"after run {run_no}: " + "; ".join(list(dict.fromkeys(problems))[:6]))
+                break
+            snaps.append((etree.tostring(sb), [sum(1 for _ in tr.root.iter()) for _, tr in
+                                               sorted(model._loader.trees.items(), key=lambda kv: str(kv[0]))]))
+        if bad is None and snaps[0] != snaps[1]:
+            before = etree.fromstring(snaps[0][0])
+            if level == "classes" and where == "set" and snaps[0][1] == snaps[1][1] and pm_bag(sb, base.ids) == pm_bag(before, base.ids):
+                # the known defect of link-valued `set`: the Generalization is deleted and re-created (fresh UUID, appended last)
+                chk.violation("sync-set-link-recreates-element",
+                              "re-applying `set` on a link-valued attribute deletes and re-creates the link element with a fresh UUID", replay)
+                continue
+            if snaps[0][1] == snaps[1][1] and pm_canon(sb, base.ids) == pm_canon(before, base.ids):
+                if level == "classes" and where == "set":
+                    chk.violation("sync-set-link-recreates-element",
+                                  "re-applying `set` on a link-valued attribute deletes and re-creates the link element with a fresh UUID", replay)
+                    continue
+                bad = ("second-run-new-uuids", "the second application re-creates elements (same content, fresh UUIDs)")
+            else:
+                bad = ("second-run-differs", f"the second application changes the model (elements per tree {snaps[0][1]} -> {snaps[1][1]})")
+        if bad is not None:
+            chk.violation(f"sync-promise-inside-find:{bad[0]}:{tag}:{cfg}",
+                          f"sync list of {L} entries ({level}) whose entry {p} has a !find directive in its {where} that contains a promise "
+                          f"{depth} level(s) down (declared {decl_at}; nested sync: {nested}; the entry's object is "
+                          f"{'there' if exists else 'new'}): {bad[1]}", replay)
+
+
 def promise_matrix(chk, bases, quick):
     """Sync lists of every length 1..4 in which each position in turn holds an entry that has to wait for a promise
     declared later (in a `set` value, in a find key, in nested sync / extend), mixed with entries that match existing
@@ -504,6 +660,8 @@ def promise_matrix(chk, bases, quick):
              "two_waiting_entries": 0, "other_entry_match": 0, "other_entry_create": 0, "other_entry_create+set": 0,
              "by_level_kind": {}, "by_length_position": {}, "by_declaration": {}, "per_model": {}}
     combos = list(pm_combos())
+    nf_stats = {"documents": 0, "combinations": len(NF_COMBOS), "chain_preexisting_none": 0, "chain_preexisting_part": 0,
+                "chain_preexisting_all": 0, "by": {}, "per_model": {}}
     for tag, base in bases.items():
         if quick and tag != "empty52":
             todo = rng.sample(combos, 270)
@@ -570,7 +728,14 @@ def promise_matrix(chk, bases, quick):
                 chk.violation(f"sync-waiting-entry:{bad[0]}:{tag}:{cfg}",
                               f"sync list of {L} entries below a {level} parent whose entry {p} has to wait for a promise ({kind}; declared "
                               f"{decl_at}; the entry's object is {'there' if wait_exists else 'new'}): {bad[1]}", replay)
+        nf_todo = NF_COMBOS if not quick else rng.sample(NF_COMBOS, 150 if tag == "empty52" else 25)
+        nf_stats["per_model"][tag] = len(nf_todo)
+        import time
+        t0 = time.time()
+        nested_find_matrix(chk, model, base, tag, nf_todo, nf_stats)
+        nf_stats["seconds"] = round(nf_stats.get("seconds", 0) + time.time() - t0, 1)
     chk.coverage["sync_waiting_entry_matrix"] = stats
+    chk.coverage["sync_promise_inside_find_matrix"] = nf_stats
 
 
 def run(chk: lib.Check):
@@ -813,14 +978,42 @@ def run(chk: lib.Check):
             out.append(ins)
         return out
 
+    def g_version():
+        """PEP 440 public versions with every optional segment, local parts, and a few near-misses"""
+        v = rng.choice(["", "", "", "1!", "2!", "v"]) + ".".join(str(rng.choice([0, 1, 6, 10, 2024])) for _ in range(rng.randint(1, 4)))
+        if rng.random() < 0.3:
+            v += rng.choice(["a", "b", "rc", ".rc", "-alpha"]) + str(rng.randint(0, 12))
+        if rng.random() < 0.3:
+            v += rng.choice([".post", "-", ".post-"]) + str(rng.randint(0, 12))
+        if rng.random() < 0.4:
+            v += rng.choice([".dev", "dev", "_dev"]) + str(rng.randint(0, 99))
+        if rng.random() < 0.6:
+            v += "+" + rng.choice([".", "-", "_"]).join(rng.choice(["g1a2b3c4", "local", "1", "d20240101", "dirty", "ubuntu", "0abc", "é", "a+b", ""])
+                                                      for _ in range(rng.randint(1, 3)))
+        return v
+
+    def g_plain(depth):
+        r = rng.random()
+        if depth <= 0 or r < 0.6:
+            return rng.choice([g_scalar(), g_version()])
+        if r < 0.8:
+            return [g_plain(depth - 1) for _ in range(rng.randint(0, 3))]
+        return {g_key(): g_plain(depth - 1) for _ in range(rng.randint(0, 3))}
+
     def g_metadata():
         r = rng.random()
         if r < 0.3:
             return None
-        md = {"written_by": {"capellambse": rng.choice(["1.0.0", "0.6.1.dev3", g_str()])},
+        md = {"written_by": {"capellambse": rng.choice(["1.0.0", "0.6.1.dev3", g_str(), g_version(), g_version(), g_version()])},
               "model": {"url": g_str(), "revision": g_str(), "entrypoint": rng.choice(["a/b.aird", g_str()])}}
+        y_stats["metadata_version_with_local_part"] += "+" in md["written_by"]["capellambse"]
         if rng.random() < 0.5:
-            md["written_by"]["generator"] = g_str()
+            md["written_by"]["generator"] = rng.choice([g_str(), "gen " + g_version()])
+        # arbitrary further keys, at the top level and inside the known blocks (plain data: what a tool may record)
+        for holder in (md, md["written_by"], md["model"]):
+            while rng.random() < 0.25:
+                holder[rng.choice(["x-tool", "capellambse+local", "written_by", "model", "version", "a+b", "generator", "url"] + NASTY[:12])] = g_plain(2)
+                y_stats["metadata_extra_keys"] += 1
         if rng.random() < 0.2:
             del md["model"]
         if rng.random() < 0.1:
@@ -889,7 +1082,8 @@ def run(chk: lib.Check):
 
     rep_cases, con_cases, load_cases, dump_cases = [], [], [], []
     nstreams = 400 if quick else 8000
-    y_stats = {"streams": 0, "with_metadata": 0, "with_newobject": 0, "values": 0, "malformed_nodes": 0}
+    y_stats = {"streams": 0, "with_metadata": 0, "with_newobject": 0, "values": 0, "malformed_nodes": 0,
+               "metadata_version_with_local_part": 0, "metadata_extra_keys": 0}
     for i in range(nstreams):
         ins = g_stream()
         md = g_metadata()
